@@ -318,7 +318,7 @@ def plan(tier, scale):
         out += [{"part": "dfs", "base": b, "bound": 2 if (b["server"] == "loop" and b["delay"] == 0) else 1} for b in bases]
         return out
     out = [{"part": "random", "n": int(8000 * scale)} for _ in range(8)]
-    out += [{"part": "dfs", "base": b, "bound": 3 if b["delay"] == 0 else 2} for b in bases]
+    out += [{"part": "dfs", "base": b, "bound": 3 if (b["delay"] == 0 and b["server"] == "loop" and b.get("callers", 1) == 1) else 2} for b in bases]
     out += [{"part": "dfs", "base": dict(b, timeout=None, extra_at=3.0), "bound": 2} for b in bases if b["delay"] == 0]
     return out
 
